@@ -111,7 +111,8 @@ def compiled_regexes(I, program, doc):
     y2r = program.find_class("Yaml2Regex")
 
     def thunk(I):
-        so = Obj(y2r, {"loaded_file": lift_skeleton(I, doc), "macros_from_terminal_filepath": NONE})
+        from ..models import new_yaml2regex
+        so = new_yaml2regex(I, lift_skeleton(I, doc))
         pats = I.call_func(y2r.find_method("_get_pattern"), [], {}, so, None, None)
         from ..models import rule_tree_call
         tree = rule_tree_call(I, y2r, so, pats)
@@ -239,8 +240,9 @@ def run(ctx) -> None:
     def thunk5(I):
         I.run.user["docs"] = {"<F2>": {"macros": [{"name": "@b", "pattern": "b"}]},
                               "<F1>": {"macros": [{"name": "@a", "pattern": "a"}, {"name": "@a2", "pattern": "a2"}]}}
-        so = Obj(y2r, {"loaded_file": lift_skeleton(I, {"macros": [{"name": "@r", "pattern": "r"}], "pattern": ["@r"]}),
-                       "macros_from_terminal_filepath": ListV([Str((Hole("F2", "path", True),)), Str((Hole("F1", "path", True),))])})
+        from ..models import new_yaml2regex
+        so = new_yaml2regex(I, lift_skeleton(I, {"macros": [{"name": "@r", "pattern": "r"}], "pattern": ["@r"]}),
+                            ListV([Str((Hole("F2", "path", True),)), Str((Hole("F1", "path", True),))]))
         for _ in range(2):
             I.call_func(y2r.find_method("_get_pattern"), [], {}, so, None, None)
             I.run.user.setdefault("seen", []).append(I.run.user.get("resolve_macros"))
